@@ -198,7 +198,36 @@ def _optimised_interpreter(ctx):
               f"{r['nbad']} of {r['n']} round trips of solved mazes differ in an interpreter started with -O: {r['bad'][:2]}", dict(examples=r["bad"]))
 
 
+def _foreign_drawings_first(ctx):
+    """history, before anything else is drawn in this process: text drawings that use other characters (box drawing with + - |, dots
+    for open cells, a drawing without S / E offered to the solved-maze reader, ragged lines) are offered to the readers, which accept
+    or refuse them; pictures with foreign colours likewise.  Every drawing made afterwards is judged as usual."""
+    from maze_dataset.maze.lattice_maze import LatticeMaze, SolvedMaze, TargetedLatticeMaze
+
+    texts = ["+-+-+\n|   |\n+ + +\n| | |\n+-+-+", "#####\n#. .#\n# # #\n#.#.#\n#####", "#####\n#   #\n# ###\n#   #\n#####",
+             "XXXXX\nX   X\nX X X\nX X X\nXXXXX", "#####\n#S  #\n###?#\n#  E#\n#####", "###\n# #\n##", "#######\n#S*E  #\n#######"]
+    for t in texts:
+        for cls in (LatticeMaze, TargetedLatticeMaze, SolvedMaze):
+            try:
+                cls.from_ascii(t)
+                ctx.tally("c10:history:foreign-drawing-accepted")
+            except Exception:  # noqa: BLE001
+                ctx.tally("c10:history:foreign-drawing-refused")
+    for val in ((7, 7, 7), (255, 0, 255), (1, 2, 3)):
+        px = np.zeros((5, 5, 3), dtype=np.uint8)
+        px[1:4, 1:4] = 255
+        px[2, 2] = val
+        for cls in (LatticeMaze, TargetedLatticeMaze, SolvedMaze):
+            try:
+                cls.from_pixels(px.copy())
+                ctx.tally("c10:history:foreign-picture-accepted")
+            except Exception:  # noqa: BLE001
+                ctx.tally("c10:history:foreign-picture-refused")
+
+
 def run(ctx):
+    if ctx.shard % 2 == 0:
+        _foreign_drawings_first(ctx)
     if ctx.shard == 1:
         _optimised_interpreter(ctx)
     k = 0
